@@ -203,6 +203,17 @@ impl StepObserver for StepObs {
                 ),
             ));
             st.probes.insert(format!("violation.kind.{kind}"), 1);
+            if std::env::var("QSIM_DUMP_STEP").is_ok() {
+                // debugging aid: the diagram the step was applied to
+                eprintln!("QSIM_DUMP_STEP {decomp} depth {depth}");
+                eprintln!("  verts (id, type, num/den): {:?}", g.verts.iter().map(|v| (v.0, format!("{:?}", v.1), v.2, v.3)).collect::<Vec<_>>());
+                eprintln!("  edges: {:?}", g.edges.iter().map(|e| (e.0, e.1, format!("{:?}", e.2))).collect::<Vec<_>>());
+                eprintln!("  scalar: {:?}", g.scalar);
+                for (i, t) in terms.iter().enumerate() {
+                    eprintln!("  term {i}: verts {:?}", t.verts.iter().map(|v| (v.0, v.2, v.3)).collect::<Vec<_>>());
+                    eprintln!("  term {i}: edges {:?} scalar {:?}", t.edges.iter().map(|e| (e.0, e.1, format!("{:?}", e.2))).collect::<Vec<_>>(), t.scalar);
+                }
+            }
         }
     }
 
@@ -959,7 +970,15 @@ impl Property for C05 {
             }
             _ => {
                 let (g, fam) = gen::closed_diagram(d, 14, tmax);
-                Sc { g, family: fam.into(), cfg: gen_cfg(d, false), hash_backend, kind: Kind::Closed, warm: d.coin("warm", 1, 4) }
+                let mut cfg = gen_cfg(d, false);
+                if fam == "pi_cats" && d.coin("pc.cfg", 2, 3) {
+                    // the configuration under which intermediate diagrams stay as the decompositions
+                    // leave them: Sherlock with magic-5 candidates, no inter-step simplification
+                    cfg.driver = Drv::Sherlock([1 + d.choose("pc.t0", 3), 1 + d.choose("pc.t1", 3), d.choose("pc.t2", 4)]);
+                    cfg.simp = 0;
+                    cfg.hist = Hist::Decompose;
+                }
+                Sc { g, family: fam.into(), cfg, hash_backend, kind: Kind::Closed, warm: d.coin("warm", 1, 4) }
             }
         }
     }
